@@ -1,5 +1,6 @@
 import Dashu.Proofs.Serde.Num
 import Dashu.Proofs.Text.Digits
+import Dashu.Proofs.Text.FloatParse
 /-
   C19 — the human-readable medium: decimal text of UBig / IBig survives `Display` → JSON string →
   `from_str_with_radix_prefix`; text decoders of rationals and floats return canonical values.
@@ -238,22 +239,210 @@ theorem unjsonX_canonical (s : Bytes) (q : QVal) (h : unjsonX s = some q) : QRel
   | none => simp [h1] at h
   | some t => simp [h1] at h; exact parseX_canonical t q h
 
+-- ---------------------------------------------------------------- float text (on builder-text's model)
+
+section FloatText
+open Dashu.Model.Float
+
+/-- two normalised representations of the same number coincide -/
+theorem normalized_unique (B : Nat) (hB : 2 ≤ B) (a b : FRepr) (ha : Normalized B a) (hb : Normalized B b)
+    (hza : a.signif = 0 → a.exp = 0) (hzb : b.signif = 0 → b.exp = 0)
+    (hv : a.toRat B = b.toRat B) : a = b := by
+  have hB0 : 0 < B := by omega
+  have key : ∀ (x y : FRepr), Normalized B x → Normalized B y → x.signif ≠ 0 → x.exp ≤ y.exp →
+      x.toRat B = y.toRat B → x.exp = y.exp ∧ x.signif = y.signif := by
+    intro x y hx hy hx0 hle h
+    obtain ⟨k, hk⟩ : ∃ k : Nat, y.exp = x.exp + k := ⟨(y.exp - x.exp).toNat, by omega⟩
+    unfold FRepr.toRat at h
+    rw [hk, bpowQ_add B hB0, bpowQ_nat] at h
+    have hpos := bpowQ_pos B hB0 x.exp
+    have h2 : (x.signif : ℚ) = (y.signif : ℚ) * ((B ^ k : Nat) : ℚ) := by
+      have : (x.signif : ℚ) * bpowQ B x.exp = ((y.signif : ℚ) * ((B ^ k : Nat) : ℚ)) * bpowQ B x.exp := by
+        rw [h]; ring
+      exact mul_right_cancel₀ (ne_of_gt hpos) this
+    have h3 : x.signif = y.signif * ((B ^ k : Nat) : Int) := by exact_mod_cast h2
+    by_cases hk0 : k = 0
+    · subst hk0; simp at h3; exact ⟨by omega, h3⟩
+    · exfalso
+      rcases hx with hx | hx
+      · exact hx0 hx
+      · apply hx
+        obtain ⟨j, hj⟩ : ∃ j, k = j + 1 := ⟨k - 1, by omega⟩
+        rw [h3, hj, Nat.pow_succ]
+        push_cast
+        rw [← mul_assoc]
+        exact Int.mul_emod_left _ _
+  by_cases ha0 : a.signif = 0
+  · have hae := hza ha0
+    have hbv : b.toRat B = 0 := by rw [← hv]; unfold FRepr.toRat; simp [ha0]
+    have hb0 : b.signif = 0 := by
+      unfold FRepr.toRat at hbv
+      have hpos := bpowQ_pos B hB0 b.exp
+      rcases mul_eq_zero.mp hbv with h | h
+      · exact_mod_cast h
+      · exact absurd h (ne_of_gt hpos)
+    have hbe := hzb hb0
+    cases a; cases b; simp_all
+  · have hb0 : b.signif ≠ 0 := by
+      intro hb0
+      have : a.toRat B = 0 := by rw [hv]; unfold FRepr.toRat; simp [hb0]
+      unfold FRepr.toRat at this
+      have hpos := bpowQ_pos B hB0 a.exp
+      rcases mul_eq_zero.mp this with h | h
+      · exact ha0 (by exact_mod_cast h)
+      · exact absurd h (ne_of_gt hpos)
+    rcases Int.le_total a.exp b.exp with h | h
+    · obtain ⟨e1, e2⟩ := key a b ha hb ha0 h hv
+      cases a; cases b; simp_all
+    · obtain ⟨e1, e2⟩ := key b a hb ha hb0 h hv.symm
+      cases a; cases b; simp_all
+
+theorem int_emod_of_natAbs (s : Int) (B : Nat) (h : s.natAbs % B ≠ 0) : s % (B : Int) ≠ 0 := by
+  intro hc
+  apply h
+  have hd : (B : Int) ∣ s := Int.dvd_of_emod_eq_zero hc
+  have : B ∣ s.natAbs := Int.natCast_dvd.mp hd
+  exact Nat.mod_eq_zero_of_dvd this
+
+theorem natAbs_emod_of_int (s : Int) (B : Nat) (h : s % (B : Int) ≠ 0) : s.natAbs % B ≠ 0 := by
+  intro hc
+  apply h
+  have : B ∣ s.natAbs := Nat.dvd_of_mod_eq_zero hc
+  exact Int.emod_eq_zero_of_dvd (Int.natCast_dvd.mpr this)
+
+theorem new_zero_exp (B : Nat) (hB : 0 < B) (s e : Int) (h : (FRepr.new B s e).signif = 0) :
+    FRepr.new B s e = ⟨0, 0⟩ := by
+  have hv := FRepr.new_value B hB s e
+  unfold FRepr.toRat at hv
+  rw [h] at hv
+  have hpos := bpowQ_pos B hB e
+  have hs : s = 0 := by
+    have : (s : ℚ) * bpowQ B e = 0 := by rw [← hv]; simp
+    rcases mul_eq_zero.mp this with h1 | h1
+    · exact_mod_cast h1
+    · exact absurd h1 (ne_of_gt hpos)
+  subst hs
+  simp [FRepr.new]
+
+/-- `Display` (no precision option) followed by `from_str_native` returns the representation itself,
+    for every finite canonical `Repr<B>`, every base 2..36 -/
+theorem parseF_textF (B : Nat) (hB : validRadix B = true) (v : FVal) (hc : FCanon B v)
+    (hfin : v.signif = 0 → v.exp = 0) : ∃ nd, parseF B (textF B v) = some (v, nd) := by
+  have hr := validRadix_iff.mp hB
+  have hB0 : 0 < B := by omega
+  have hninf : ¬ (v.signif = 0 ∧ v.exp ≠ 0) := fun h => h.2 (hfin h.1)
+  unfold textF
+  simp only [hninf, if_false]
+  obtain ⟨r', n, hparse, hval⟩ := display_parse_round_trip 64 (by norm_num) B hB .zero ⟨v.signif, v.exp⟩
+  unfold fromStrNative at hparse
+  unfold parseF
+  cases hraw : fromStrNativeRaw 64 B (fmtRound B .zero {} none ⟨v.signif, v.exp⟩) with
+  | error e => rw [hraw] at hparse; simp [Except.map] at hparse
+  | ok t =>
+    obtain ⟨sig, e, nd⟩ := t
+    rw [hraw] at hparse
+    simp [Except.map] at hparse
+    obtain ⟨hr', hn⟩ := hparse
+    have hnorm : Normalized B (FRepr.new B sig e) := FRepr.new_normalized B hr.1 sig e
+    have hvn : Normalized B ⟨v.signif, v.exp⟩ := by
+      unfold Normalized
+      by_cases h0 : v.signif = 0
+      · exact Or.inl h0
+      · exact Or.inr (int_emod_of_natAbs _ _ (hc.2.1 h0))
+    have heq : FRepr.new B sig e = ⟨v.signif, v.exp⟩ := by
+      apply normalized_unique B hr.1 _ _ hnorm hvn
+      · intro h0; rw [new_zero_exp B hB0 sig e h0]
+      · exact hfin
+      · rw [hr']; exact hval
+    simp only [heq]
+    have hin : inIsize v.exp := hc.2.2
+    simp [hin]
+
+theorem digitChar_plain (d : Nat) (hd : d < 36) : plainChar (digitChar false d) := by
+  unfold digitChar plainChar
+  by_cases h : d < 10 <;> simp [h] <;> omega
+
+theorem fmtRound_plain (B : Nat) (hB : validRadix B = true) (m : Mode) (r : FRepr) :
+    ∀ c ∈ fmtRound B m {} none r, plainChar c := by
+  have hr := validRadix_iff.mp hB
+  obtain ⟨di, frac, htext, hdi, hdf, _, _⟩ := display_is_literal B hr.1 m r
+  rw [htext]
+  intro c hc
+  unfold renderLiteral at hc
+  rcases List.mem_append.mp hc with h | h
+  · -- sign
+    split at h
+    · have : c = 45 := by simpa [signChars] using h
+      subst this; unfold plainChar; omega
+    · simp [signChars] at h
+  · rcases List.mem_append.mp h with h | h
+    · rcases List.mem_append.mp h with h | h
+      · obtain ⟨d, hd, rfl⟩ := chars_mem h
+        exact digitChar_plain d (by have := hdi d hd; omega)
+      · cases frac with
+        | none => simp [fracChars] at h
+        | some df =>
+          simp only [fracChars, List.mem_cons] at h
+          rcases h with h | h
+          · subst h; unfold plainChar; omega
+          · obtain ⟨d, hd, rfl⟩ := chars_mem h
+            exact digitChar_plain d (by have := hdf d (by simpa using hd); omega)
+    · simp [scaleChars] at h
+
 theorem parseF_canonical (B : Nat) (hB : 2 ≤ B) (s : Bytes) (v : FVal) (nd : Nat)
     (h : parseF B s = some (v, nd)) : FCanon B v := by
   unfold parseF at h
-  cases h1 : parseNativeRaw B s with
-  | none => simp [h1] at h
-  | some p =>
-    obtain ⟨neg, m, e, k⟩ := p
-    simp only [h1, Option.bind_eq_bind, Option.bind_some] at h
-    by_cases hr : inIsize e
-    · simp only [hr, not_true_eq_false, if_false] at h
-      cases h2 : fnew B (if neg = true then -(m : Int) else (m : Int)) e with
-      | none => simp [h2] at h
-      | some w =>
-        simp [h2] at h
-        rw [← h.1]; exact fnew_canon B hB _ _ w h2
-    · simp [hr] at h
+  cases hraw : fromStrNativeRaw 64 B s with
+  | error e => simp [hraw] at h
+  | ok t =>
+    obtain ⟨sig, e, k⟩ := t
+    simp only [hraw] at h
+    by_cases hin : inIsize (FRepr.new B sig e).exp
+    · simp only [hin, if_true] at h
+      simp at h
+      obtain ⟨hv, _⟩ := h
+      subst hv
+      have hnorm := FRepr.new_normalized B hB sig e
+      refine ⟨?_, ?_, hin⟩
+      · intro h0
+        dsimp at h0
+        have := new_zero_exp B (by omega) sig e h0
+        dsimp
+        rw [this]; exact Or.inl rfl
+      · intro h0
+        dsimp at h0 ⊢
+        rcases hnorm with h1 | h1
+        · exact absurd h1 h0
+        · exact natAbs_emod_of_int _ _ h1
+    · simp [hin] at h
+
+
+/-- Repr<B>: `Display` → JSON string → `from_str_native` is the identity on finite canonical
+    representations, every base 2..36 -/
+theorem unjsonR_jsonR (B : Nat) (hB : validRadix B = true) (v : FVal) (hc : FCanon B v)
+    (hfin : v.signif = 0 → v.exp = 0) : unjsonR B (jsonR B v) = some v := by
+  unfold unjsonR jsonR
+  have hninf : ¬ (v.signif = 0 ∧ v.exp ≠ 0) := fun h => h.2 (hfin h.1)
+  have hplain : ∀ c ∈ textF B v, plainChar c := by
+    unfold textF; simp only [hninf, if_false]
+    exact fmtRound_plain B hB .zero _
+  rw [jsonUnquote_jsonQuote _ hplain]
+  obtain ⟨nd, h⟩ := parseF_textF B hB v hc hfin
+  simp [h]
+
+/-- FBig: the same text; the precision read back is the number of digits written -/
+theorem unjsonF_jsonR (B : Nat) (hB : validRadix B = true) (v : FVal) (hc : FCanon B v)
+    (hfin : v.signif = 0 → v.exp = 0) : ∃ nd, unjsonF B (jsonR B v) = some ⟨v.signif, v.exp, nd⟩ := by
+  unfold unjsonF jsonR
+  have hninf : ¬ (v.signif = 0 ∧ v.exp ≠ 0) := fun h => h.2 (hfin h.1)
+  have hplain : ∀ c ∈ textF B v, plainChar c := by
+    unfold textF; simp only [hninf, if_false]
+    exact fmtRound_plain B hB .zero _
+  rw [jsonUnquote_jsonQuote _ hplain]
+  obtain ⟨nd, h⟩ := parseF_textF B hB v hc hfin
+  exact ⟨nd, by simp [h]⟩
+
+end FloatText
 
 theorem unjsonR_canonical (B : Nat) (hB : 2 ≤ B) (s : Bytes) (v : FVal) (h : unjsonR B s = some v) : FCanon B v := by
   unfold unjsonR at h
